@@ -272,11 +272,24 @@ pub fn run_registration<const N: usize>(tkind: crate::drivers::TKind, pre: usize
 }
 
 pub fn run_registration_of<const N: usize>(tkind: crate::drivers::TKind, pre: usize, skew: u32, bits: u8, qidx: u16, twice: bool) -> Vec<(String, String)> {
+    run_registration_at::<N>(tkind, pre, skew, bits, qidx, twice, None)
+}
+
+/// Queue 0's first DMA region starts `below` pages below a 4 GiB boundary of device address space:
+/// the areas of one region then differ in the upper half of their addresses.
+pub fn run_registration_straddling<const N: usize>(tkind: crate::drivers::TKind, below: u64, bits: u8) -> Vec<(String, String)> {
+    run_registration_at::<N>(tkind, 0, 0, bits, 0, false, Some(below))
+}
+
+fn run_registration_at<const N: usize>(tkind: crate::drivers::TKind, pre: usize, skew: u32, bits: u8, qidx: u16, twice: bool, straddle: Option<u64>) -> Vec<(String, String)> {
     hal::reset();
     hal::with(|h| h.skew_dma(skew as u64));
     let mut keep = vec![];
     for _ in 0..pre {
         keep.push(<LabHal as virtio_drivers::Hal>::dma_alloc(1, virtio_drivers::BufferDirection::Both, false));
+    }
+    if let Some(b) = straddle {
+        hal::with(|h| h.straddle_next(b));
     }
     // (A device with two queues, whose maximum queue size is at least the requested size.)
     crate::drivers::MAX_QUEUE_SIZE.with(|m| m.set(64.max(N as u32)));
